@@ -95,14 +95,23 @@ EncOerReal(v) == WithOerLength(RealContents(v))
 
 RECURSIVE OerEnc(_, _, _, _)
 
+\* 16.2.x: in BASIC-OER it is the sender's option whether a component whose value equals its DEFAULT is
+\* encoded (CANONICAL-OER: never).  OptOerDefaultEquivalentEncoded is that option taken for values that
+\* are equal to the default as abstract values but not written like it (named bits with trailing 0 bits,
+\* SET OF in another order ...); it is an encoder's option, not a deviation.
+OerMemberIsEncoded(env, m, v, S) ==
+  /\ v[m.n].p
+  /\ ~(m.q = "D" /\ (IF "OptOerDefaultEquivalentEncoded" \in S THEN v[m.n].v = m.d
+                                                                ELSE AbsEq(env, m.t, v[m.n].v, m.d)))
+
 OerMembers(env, ms, v, S) ==
   Concat([i \in 1..Len(ms) |->
-     IF MemberIsEncoded(env, ms[i], v) THEN OerEnc(env, ms[i].t, v[ms[i].n].v, S) ELSE <<>>])
+     IF OerMemberIsEncoded(env, ms[i], v, S) THEN OerEnc(env, ms[i].t, v[ms[i].n].v, S) ELSE <<>>])
 
 \* 16.2 preamble: extension bit, one bit per OPTIONAL/DEFAULT root component, zero padded
-OerPreambleBits(env, ms, v) ==
+OerPreambleBits(env, ms, v, S) ==
   LET opt == SelectSeq(ms, LAMBDA m : m.q # "M")
-  IN [i \in 1..Len(opt) |-> IF MemberIsEncoded(env, opt[i], v) THEN 1 ELSE 0]
+  IN [i \in 1..Len(opt) |-> IF OerMemberIsEncoded(env, opt[i], v, S) THEN 1 ELSE 0]
 
 EncOerSequence(env, T, v, S) ==
   LET order == IF T.k = "SET" /\ "DevOerSetTextualOrder" \notin S THEN CanonicalOrder(env, T) ELSE [i \in 1..Len(T.root) |-> i]
@@ -116,7 +125,7 @@ EncOerSequence(env, T, v, S) ==
       anyAdd == \E i \in 1..Len(adds) : addPresent(adds[i])
       addEnc(a) == IF a.g
                    THEN LET gms == [h \in 1..Len(a.ms) |-> DevMember(env, a.ms[h], S)]
-                            pre == OerPreambleBits(env, gms, v)
+                            pre == OerPreambleBits(env, gms, v, S)
                         IN WithOerLength((IF pre = <<>> THEN <<>> ELSE BitsToBytes(pre)) \o OerMembers(env, gms, v, S))
                    ELSE WithOerLength(OerEnc(env, a.m.t, v[a.m.n].v, S))
       bitmap == [i \in 1..Len(adds) |-> IF addPresent(adds[i]) THEN 1 ELSE 0]
@@ -124,7 +133,7 @@ EncOerSequence(env, T, v, S) ==
         IF ~anyAdd THEN <<>>
         ELSE WithOerLength(<<(8 - (Len(bitmap) % 8)) % 8>> \o BitsToBytes(bitmap))           \* 16.4.3
              \o Concat([i \in 1..Len(adds) |-> IF addPresent(adds[i]) THEN addEnc(adds[i]) ELSE <<>>])
-      pbits == (IF ext THEN <<IF anyAdd THEN 1 ELSE 0>> ELSE <<>>) \o OerPreambleBits(env, root, v)
+      pbits == (IF ext THEN <<IF anyAdd THEN 1 ELSE 0>> ELSE <<>>) \o OerPreambleBits(env, root, v, S)
   IN (IF pbits = <<>> THEN <<>> ELSE BitsToBytes(pbits))
      \o OerMembers(env, root, v, S)
      \o additions
